@@ -157,7 +157,8 @@ def load_one(lit: LineIterator) -> dict:
 
 def load_qchemlog_low(lit: LineIterator) -> dict:
     """Load the information from Q-Chem log file."""
-    data = {}
+    # Q-Chem echoes only the $rem keywords given by the user; "unrestricted" defaults to false.
+    data = {"unrestricted": False}
     while True:
         try:
             line = next(lit).strip()
